@@ -4,16 +4,16 @@
      imap_count_index_of : the number of headers in the index built from a blob's records is the
                            number of records;
      counts_spec         : `counts s = spec_counts s` in every state whose indexes describe their
-                           blobs, in which no slot of the closed list was vacated, and whose active
-                           blob (if any) carries the number of slots as its id;
-     blobs_count_refuted : without the no-vacated-slot hypothesis the equality fails: after
-                           close_active + restore_active the model (faithful to the code, which
-                           reports the number of slots of HierarchicalFilters::children) counts the
-                           vacated slot.
+                           blobs (BlobsOk; only its idx_ok half is used).  No other proviso: since
+                           the repair of the counters (blobs_count = occupied slots, the active
+                           entry carries the blob's own id) vacated slots are not counted;
+     reach_counts        : hence after EVERY history;
+     blobs_count_after_restore : the history that refuted the equality before the repair
+                           (open; write; close_active; restore_active) now satisfies it.
 
    `counts`, `spec_counts`, `index_of`, `idx_ok` take neither K nor cfg; `BlobsOk` and `run` do. *)
 Require Import Pearl.Base.Prelude Pearl.Storage.Model Pearl.Storage.Spec Pearl.Storage.Inv
-               Pearl.Storage.IndexProofs Pearl.Storage.InvProofs.
+               Pearl.Storage.IndexProofs Pearl.Storage.InvProofs Pearl.Storage.Theorems.
 
 (* ---------- imap_count as a sum ---------- *)
 Lemma fold_count_acc (m : imap) : forall a,
@@ -140,14 +140,6 @@ Lemma index_of_snoc rs r : index_of (rs ++ [r]) = imap_push (index_of rs) r.
 Proof. unfold index_of. rewrite fold_left_app. reflexivity. Qed.
 
 (* ---------- the counters ---------- *)
-Lemma cb_length_no_none l : (forall o, In o l -> o <> None) -> length (cb l) = length l.
-Proof.
-  induction l as [|[b|] l IH]; intros H; [reflexivity| |].
-  - rewrite cb_cons_some. cbn [length]. rewrite IH; [reflexivity|].
-    intros o Ho. apply H. right. exact Ho.
-  - exfalso. apply (H None); [left|]; reflexivity.
-Qed.
-
 Lemma sum_det (l : list blob) : forall a,
   fold_left (fun a (p : N * N) => a + snd p) (map (fun b => (b_id b, N.of_nat (length (b_recs b)))) l) a =
   a + N.of_nat (length (flat_map b_recs l)).
@@ -157,18 +149,13 @@ Proof.
   - rewrite IH, app_length, Nat2N.inj_add. lia.
 Qed.
 
-(* counters = what the specification says, in every state whose indexes describe their blobs, in
-   which no slot of the closed list was vacated (no restore happened in this session), and in which
-   the id of the active blob is the number of slots (the code reports the latter as the id). *)
-Theorem counts_spec : forall K s,
-  BlobsOk K s ->
-  (forall o, In o (s_closed s) -> o <> None) ->
-  (forall b, s_active s = Some b -> b_id b = N.of_nat (length (s_closed s))) ->
-  counts s = spec_counts s.
+(* counters = what the specification says, in every state whose indexes describe their blobs.
+   Before the repair of the counters two more provisos were needed (no vacated slot in the closed
+   list; id of the active blob = number of slots): the code counted the slots of
+   HierarchicalFilters::children and reported that number as the id of the active blob. *)
+Theorem counts_spec : forall K s, BlobsOk K s -> counts s = spec_counts s.
 Proof.
-  intros K s [Hc Ha] Hnone Hid.
-  assert (Hlen : length (closed_blobs s) = length (s_closed s)).
-  { rewrite closed_blobs_cb. apply cb_length_no_none, Hnone. }
+  intros K s [Hc Ha].
   assert (Hdc : map (fun b => (b_id b, imap_count (b_idx b))) (closed_blobs s) =
                 map (fun b => (b_id b, N.of_nat (length (b_recs b)))) (closed_blobs s)).
   { apply map_ext_in. intros b Hb. rewrite closed_blobs_cb in Hb. apply in_cb in Hb.
@@ -176,36 +163,41 @@ Proof.
   unfold counts, spec_counts, active_count, abs, blobs_in_order. rewrite Hdc.
   destruct (s_active s) as [b|] eqn:Ea.
   - destruct (Ha b eq_refl) as [Hi _]. unfold idx_ok in Hi.
-    rewrite Hi, imap_count_index_of, <- (Hid b eq_refl).
+    rewrite Hi, imap_count_index_of.
     change ([(b_id b, N.of_nat (length (b_recs b)))]) with
       (map (fun b => (b_id b, N.of_nat (length (b_recs b)))) [b]).
-    rewrite <- map_app, sum_det, app_length, Hlen. cbn [length].
-    f_equal; rewrite ?(Hid b eq_refl); lia.
-  - rewrite !app_nil_r, sum_det, Hlen. f_equal; lia.
+    rewrite <- map_app, sum_det, app_length. cbn [length].
+    f_equal; lia.
+  - rewrite !app_nil_r, sum_det. f_equal; lia.
 Qed.
 
 (* the same statement for the answer to OCounts *)
 Corollary counts_answer : forall K cfg s,
-  s_open s = true ->
-  BlobsOk K s ->
-  (forall o, In o (s_closed s) -> o <> None) ->
-  (forall b, s_active s = Some b -> b_id b = N.of_nat (length (s_closed s))) ->
-  Some (snd (step K cfg s OCounts)) = spec_answer s OCounts.
+  s_open s = true -> BlobsOk K s -> Some (snd (step K cfg s OCounts)) = spec_answer s OCounts.
 Proof.
-  intros K cfg s Ho Hb Hn Hi. unfold step. cbn [needs_open]. rewrite Ho. cbn [negb andb snd spec_answer].
+  intros K cfg s Ho Hb. unfold step. cbn [needs_open]. rewrite Ho. cbn [negb andb snd spec_answer].
   f_equal. apply (counts_spec K); assumption.
 Qed.
 
-(* refutation witness: the faithful model counts a vacated slot.  After open / write / close_active /
-   restore_active the closed list is [None] and the restored blob 0 is active: the code reports 2
-   blobs and the pair (1, 1) for the active blob, the specification 1 blob and the pair (0, 1). *)
-Example blobs_count_refuted :
+(* after every history *)
+Theorem reach_counts : forall K cfg ops, counts (reach K cfg ops) = spec_counts (reach K cfg ops).
+Proof. intros K cfg ops. apply (counts_spec K). apply (reach_Inv K cfg ops). Qed.
+
+(* Before the repair of the counters (commits b2a4900 / 7f20c40 of the code) this history REFUTED the
+   equality: after open / write / close_active / restore_active the closed list is [None] and the
+   restored blob 0 is active; the code reported 2 blobs and the pair (1, 1) for the active blob, the
+   specification 1 blob and the pair (0, 1).  The repaired code counts occupied slots and reports
+   the blob's own id, and the two agree (by computation; also an instance of reach_counts). *)
+Example blobs_count_after_restore :
   let cfg := {| c_dup := true; c_maxrec := 1000; c_maxsize := 1000000 |} in
   let s := fst (run 4 cfg init_storage [OOpen false; OWrite 1 7 None 8 5 1; OCloseActive; ORestoreActive]) in
-  counts s <> spec_counts s.
-Proof. vm_compute. discriminate. Qed.
+  s_closed s = [None] /\
+  counts s = spec_counts s /\
+  counts s = RCounts 1 [(0, 1)] (Some 1) 1 1 0 true.
+Proof. vm_compute. repeat split; reflexivity. Qed.
 
 Print Assumptions imap_count_index_of.
 Print Assumptions counts_spec.
 Print Assumptions counts_answer.
-Print Assumptions blobs_count_refuted.
+Print Assumptions reach_counts.
+Print Assumptions blobs_count_after_restore.
